@@ -551,6 +551,41 @@ pub fn for_each_wild_combined(st: &mut Striper, visit: &mut dyn FnMut(&Term)) {
     Some((0, 7, 7, Some(0))),    // beyond the recorded content
     Some((1, 1, 0, None)),
   ];
+  // indices FAR outside the tables: a request for memory sized by such an index is caught by the
+  // allocation oracle (one or two such segments per map are enough)
+  {
+    let huge: Vec<Option<O4>> = vec![Some((3_000_000, 1, 0, None)), Some((0, 1, 0, Some(3_000_000))), Some((3_000_000, 0, 3_000_000, Some(3_000_000)))];
+    let base_outer = vec![Seg { gl: 1, gc: 0, orig: Some((0, 1, 0, Some(0))) }, Seg { gl: 2, gc: 0, orig: Some((0, 2, 0, None)) }];
+    let base_inner = vec![Seg { gl: 1, gc: 0, orig: Some((0, 1, 0, None)) }];
+    for h in &huge {
+      for variant in 0..4u8 {
+        if !st.mine() {
+          continue;
+        }
+        // the huge index in the outer map / in the inner map, on a position that is looked up
+        let (osegs, isegs) = match variant {
+          0 => (vec![Seg { gl: 1, gc: 0, orig: *h }, base_outer[1].clone()], base_inner.clone()),
+          1 => (base_outer.clone(), vec![Seg { gl: 1, gc: 0, orig: *h }]),
+          2 => (base_outer.clone(), vec![base_inner[0].clone(), Seg { gl: 2, gc: 0, orig: *h }]),
+          _ => (vec![base_outer[0].clone(), Seg { gl: 1, gc: 1, orig: *h }], vec![Seg { gl: 1, gc: 0, orig: *h }]),
+        };
+        for opt in 0..4u8 {
+          let mut om = MapSpec::new(osegs.clone(), &["inner.js", "o1"], None, &["ab", "zz"]);
+          om.contents = Some(vec![original.to_string(), "other".into()]);
+          let im = MapSpec::new(isegs.clone(), &["x0", "x1"], if opt & 1 == 0 { None } else { Some(&["ab\ncd", "q"]) }, &["in0"]);
+          let t = Term::Sms(Box::new(SmsSpec {
+            value: gen.to_string(),
+            name: "inner.js".into(),
+            map: om,
+            original_source: Some(original.to_string()),
+            inner: Some(im),
+            remove: opt & 2 != 0,
+          }));
+          visit(&t);
+        }
+      }
+    }
+  }
   let outer_lists = trees::seg_lists(&opos, &outer_kinds, 2);
   let (ipos0, iend) = crate::model::positions(original);
   let mut ipos = ipos0.clone();
@@ -673,10 +708,17 @@ pub fn c17_tree_worker(tier: &str, k: usize, n: usize, ctx: &mut Ctx) {
       let mut m = MapSpec::new(vec![], &["s0", "s1"], Some(&["ab\ncd", "x"]), &["n0"]);
       m.raw_mappings = Some(raw.to_string());
       let leaf = Term::sms("ab\ncd\n", "neg.js", m);
-      for w in [
+      let mut ws = vec![
         Term::replace(leaf.clone(), vec![crate::term::Repl::new(1, 4, "X\n")]),
         Term::concat(vec![Term::orig("q", "q.js"), Term::cached(leaf.clone())]),
-      ] {
+      ];
+      if tier == "thorough" {
+        for r in [crate::term::Repl::new(0, 3, ""), crate::term::Repl::new(2, 2, "Y\nZ"), crate::term::Repl::new(3, 9, "w")] {
+          ws.push(Term::concat(vec![Term::replace(leaf.clone(), vec![r.clone()]), Term::orig("q", "q.js")]));
+          ws.push(Term::replace(Term::concat(vec![Term::orig("q\n", "q.js"), leaf.clone()]), vec![r]));
+        }
+      }
+      for w in ws {
         crate::set_current_case(&w);
         ctx.states += 1;
         ctx.evaluations += 1;
@@ -694,10 +736,53 @@ pub fn c17_tree_worker(tier: &str, k: usize, n: usize, ctx: &mut Ctx) {
     });
     crate::clear_current_case();
   }
+  // curated maps whose running values go negative in each field / on each line, under every single
+  // replacement and in the contexts that do arithmetic on generated positions
+  {
+    let mut st = Striper::new(k, n);
+    let raws = [
+      "DAAA", "ADAA", "AADA", "AAAD", "AAAAD", "D", "AAAA,DAAA", "AAAA;DAAA", "CAAA,FAAA", ";DAAA", "AAAA;ADAA", "AAAA,AAFA",
+      "IAAA,DAAA,DAAA", "DAAA;DAAA;DAAA", "AAAA,D", "EAAA,H,CAAA", "AAAA;;DAAA,CAAA", "FAAA", "AAAF", "AAFA;AAAA;AAFA",
+    ];
+    let text = "ab\ncd\n";
+    let (pos, _) = crate::model::positions(text);
+    for raw in raws {
+      let mut m = MapSpec::new(vec![], &["s0", "s1"], Some(&["ab\ncd", "x"]), &["n0"]);
+      m.raw_mappings = Some(raw.to_string());
+      let leaf = Term::sms(text, "neg.js", m);
+      for s in 0..=pos.len() as u32 + 1 {
+        for e in s..=pos.len() as u32 + 1 {
+          if !st.mine() {
+            continue;
+          }
+          for content in ["", "X", "\n", "Y\nZ"] {
+            let r = vec![crate::term::Repl::new(s, e, content)];
+            for w in [
+              Term::replace(leaf.clone(), r.clone()),
+              Term::concat(vec![Term::replace(leaf.clone(), r.clone()), Term::orig("q", "q.js")]),
+              Term::replace(Term::concat(vec![Term::orig("q", "q.js"), leaf.clone()]), r.clone()),
+              Term::concat(vec![Term::orig("q", "q.js"), Term::replace(Term::cached(leaf.clone()), r.clone()), Term::raw("z")]),
+            ] {
+              crate::set_current_case(&w);
+              ctx.states += 1;
+              tc::all_methods_return(ctx, &w);
+            }
+          }
+        }
+      }
+    }
+    crate::clear_current_case();
+  }
   let all = |_: &Term| true;
   sweep(ctx, &wild_scope(tier), k, n, &all, &mut |c, t| tc::all_methods_return(c, t));
   let mut st = Striper::new(k, n);
+  let mut wc = 0u64;
   for_each_wild_combined(&mut st, &mut |t| {
+    wc += 1;
+    // quick tier: every other member of the big product (the huge-index members come first and are always run)
+    if tier != "thorough" && wc > 48 && wc % 2 == 0 {
+      return;
+    }
     crate::set_current_case(t);
     ctx.begin_case(|| serde_json::to_string(t).unwrap());
     ctx.states += 1;
@@ -712,10 +797,13 @@ pub fn c17_tree_worker(tier: &str, k: usize, n: usize, ctx: &mut Ctx) {
     tc::all_methods_return(ctx, &w2);
   });
   crate::clear_current_case();
+  // the general ASCII scope as a "returns normally" sweep as well (pairs of replacements in the thorough tier)
+  let mut sc = general_scope("quick");
   if tier == "thorough" {
-    // the general ASCII scope as a "returns normally" sweep as well
-    let mut sc = general_scope("quick");
     sc.repl_max_leaf = 2;
-    sweep(ctx, &sc, k, n, &all, &mut |c, t| tc::all_methods_return(c, t));
+  } else {
+    sc.repl_max_leaf = 1;
+    sc.repl_max_composite = 1;
   }
+  sweep(ctx, &sc, k, n, &all, &mut |c, t| tc::all_methods_return(c, t));
 }
